@@ -353,7 +353,10 @@ def handle : List String → Option (List String)
       let o1 ← natList? o1
       let o2 ← natList? o2
       let (dbs, t) ← state? dbs hash cps
-      pure (render tag ver ids dbs t (updateReqs ver t loc ids o1 o2 now))
+      -- the order of the clean-up is MODELLED (BookSys.updateReqsReal: ascending (offset, mtime, db), abort on an
+      -- unreadable record); the order the harness observed (`o2`) is not used
+      let _ := o2
+      pure (render tag ver ids dbs t (BookSys.updateReqsReal ver t loc ids o1 dbs now))
     some (r.getD [s!"#{tag} bad-op"])
   | ["c17g", tag, ver, ids, live, before, orders, dbs, hash, cps] =>
     let r : Option (List String) := do
